@@ -182,6 +182,20 @@ def run(rep, tier, seed, b):
     etabs = E.tables_for(rng, 4)
     for x in E.gen_smiles_cases(rng, n // 3, mutate=0.2, maxlen=90):
         items.append(('enc', rng.choice(etabs), x, rng.random() < 0.6))
+    # a bond character in front of the first atom of the string or of a fragment is a token of its own
+    lead = E.gen_smiles_cases(rng, 250 if tier == 'quick' else 5000, mutate=0.0, maxlen=40)
+    for x in lead:
+        b = rng.choice(['=', '-', '#', '/', '\\'])
+        k = rng.random()
+        if k < 0.6:
+            x2 = b + x
+        elif k < 0.8:
+            x2 = x + '.' + b + rng.choice(['C', 'N', 'CO', '[NH4+]', 'C=O'])
+        else:
+            x2 = b + x + '.' + rng.choice(['=', '-']) + 'O'
+        items.append(('enc', rng.choice(etabs), x2, rng.random() < 0.5))
+    for x2 in ('=CN', '-CO', '/C=C/F', '\\C=C/N', '=[NH2+]C', '-[O-].[Na+]', 'C.=NO', '#CC', '=C(C)C', '-C1CC1'):
+        items.append(('enc', presets[0], x2, False))
     res = core.pmap('p_c17', 'work', items, chunk=300)
     for it, r in zip(items, res):
         rep.evaluations += 1
